@@ -332,6 +332,10 @@ pub struct Case {
     /// for the eight standard methods: start from the method of that name on a fresh Session
     #[serde(default)]
     pub via_session: bool,
+    /// the peer resets the connection once this fraction of (an estimate of) the request has been accepted: a request whose
+    /// writing was refused is not reported as sent
+    #[serde(default)]
+    pub reset_at: Option<u16>,
 }
 
 pub struct C07;
@@ -625,11 +629,11 @@ non-trivial = a body or >= 1 param or a custom program with >= 2 writes";
             urlgen::url_spec(true, false),
             proptest::collection::vec(build_op(), 0..7),
             body_spec(),
-            (prop::bool::weighted(0.8), crate::props::c15::short_write_strategy(), any::<bool>(), prop::bool::weighted(0.2), prop::bool::weighted(0.3)),
+            (prop::bool::weighted(0.8), crate::props::c15::short_write_strategy(), any::<bool>(), prop::bool::weighted(0.2), prop::bool::weighted(0.3), prop_oneof![9 => Just(None), 1 => any::<u16>().prop_map(Some)]),
         )
-            .prop_map(|(method, url, ops, body, (allow_compression, short_write, via_free_fn, via_proxy, via_session))| {
+            .prop_map(|(method, url, ops, body, (allow_compression, short_write, via_free_fn, via_proxy, via_session, reset_at))| {
                 let method = if method == "CONNECT" { "CONNECTX".to_string() } else { method };
-                Case { method, url, ops, body, allow_compression, short_write, via_free_fn, via_proxy, via_session }
+                Case { method, url, ops, body, allow_compression, short_write, via_free_fn, via_proxy, via_session, reset_at }
             })
             .boxed()
     }
@@ -639,6 +643,17 @@ non-trivial = a body or >= 1 param or a custom program with >= 2 writes";
         let method = http::Method::from_bytes(case.method.as_bytes()).expect("generated method is a token");
         let _short = crate::transport::short_writes(crate::props::c15::short_write_bytes(case.short_write));
         ctx.label_if(case.short_write != 0, "short-writing-transport");
+        struct ResetOff;
+        impl Drop for ResetOff {
+            fn drop(&mut self) {
+                crate::transport::fail_writes_after(0);
+            }
+        }
+        let _reset_off = ResetOff;
+        if let Some(f) = case.reset_at {
+            // (the head alone is a few hundred bytes: small fractions cut inside it, large ones inside or behind the body)
+            crate::transport::fail_writes_after(1 + (((f as usize) * 1200) >> 16));
+        }
         let (_guard, net) = serve_scripts(vec![ok_response()]);
         let mut model: HeaderModel = BTreeMap::new();
         let mut params: Vec<(String, String)> = case.url.query.clone().unwrap_or_default();
@@ -698,6 +713,19 @@ non-trivial = a body or >= 1 param or a custom program with >= 2 writes";
             }
         }
         let sent = send_with_body(rb, &case.body);
+        // (the limit is read when the connection is made, i.e. inside send)
+        crate::transport::fail_writes_after(0);
+        if case.reset_at.is_some() {
+            let refused = net.lock().unwrap().dials.first().map(|d| d.1.lock().unwrap().write_refused).unwrap_or(false);
+            if refused {
+                ctx.label("peer-reset-while-the-request-was-written");
+                ctx.nontrivial = true;
+                return match &sent.result {
+                    Err(_) => Outcome::Pass,
+                    Ok(r) => Outcome::fail("C07:reset-transmission-reported-as-sent", format!("a write of the request was refused (connection reset by the peer), yet send() returned a {} response", r.status())),
+                };
+            }
+        }
         if let BodySpec::Custom(p) = &case.body {
             if p.ops.iter().any(|o| matches!(o, WOp::Fail)) {
                 // the body's source failed: the exchange fails, and a truncated body is never presented as a complete request
